@@ -248,6 +248,11 @@ def value_alphabet():
         "np.float64": np.float64(-2.5),
         "np.int32": np.int32(-3),
         "np.int64": np.int64(2**40),
+        "np.int64-beyond-float53": np.int64(2**53 + 1),
+        "np.int64-min": np.int64(-(2**63)),
+        "np.uint64-large": np.uint64(2**63 + 5),
+        "int-beyond-float53": 2**60 + 1,
+        "list-of-large-np-ints": [np.int64(2**53 + 1), np.int64(2**62 + 3)],
         "np.longdouble": np.longdouble(0.125),
         "0d-array": np.array(3.5),
         "float-array": np.array([1.0, np.nan, np.inf]),
